@@ -101,7 +101,7 @@ theorem batchLoop_closedOn (hc : ClosedOn al P) (inj : BSt → Nat → BSt) (hin
 theorem poll_closedOn (hc : ClosedOn al P) (inj : BSt → Nat → BSt) (hinj : ∀ s site, P s → P (inj s site))
     (s : BSt) (h : P s) : P (poll inj s) := by
   unfold poll
-  have h1 := populate_closed' hc.refresh hc.toClosedQ inj hinj s h
+  have h1 := populate_closed' hc.frame hc.refresh hc.toClosedQ inj hinj s h
   generalize populate inj s = pr at h1 ⊢
   obtain ⟨s1, count⟩ := pr
   dsimp only at h1 ⊢
@@ -130,7 +130,7 @@ theorem exitLoop_closedOn (hc : ClosedOn al P) (inj : BSt → Nat → BSt) (hinj
           (hc.frame _ _ (checkFailures_closedOn hc inj hinj _ h1) (flushSinks_frame _))))
     · have h0 : P { (allEmpty s).1 with now := (allEmpty s).1.now + tick } :=
         hc.frame _ _ h1 (Frame.of_eq rfl rfl rfl rfl rfl rfl rfl rfl rfl rfl rfl rfl rfl (fun _ h => h))
-      have h2 := populate_closed' hc.refresh hc.toClosedQ inj hinj _ h0
+      have h2 := populate_closed' hc.frame hc.refresh hc.toClosedQ inj hinj _ h0
       generalize populate inj _ = pr at h2 ⊢
       obtain ⟨s1, count⟩ := pr
       dsimp only at h2 ⊢
